@@ -201,6 +201,10 @@ pub struct SessionSpec {
     pub eph: EphMode,
     pub backend_i: Backend,
     pub backend_r: Backend,
+    /// key pinning: each side is ALSO given the peer's true static key where the pattern
+    /// transmits it anyway (an application that knows whom it expects)
+    #[serde(default)]
+    pub pin_rs: bool,
 }
 
 impl SessionSpec {
@@ -216,6 +220,7 @@ impl SessionSpec {
             eph: EphMode::Fixed,
             backend_i: Backend::Default,
             backend_r: Backend::Default,
+            pin_rs: false,
         }
     }
     pub fn pattern(&self) -> Pattern {
@@ -390,7 +395,7 @@ pub fn build_snow(
     if ov.supply_s.unwrap_or_else(|| pat.role_uses_static(initiator)) {
         b = b.local_private_key(&s_priv)?;
     }
-    if ov.supply_rs.unwrap_or_else(|| pat.role_needs_remote_static(initiator)) {
+    if ov.supply_rs.unwrap_or_else(|| pat.role_needs_remote_static(initiator) || (spec.pin_rs && pat.role_uses_static(!initiator))) {
         b = b.remote_public_key(&rs_pub)?;
     }
     if !prologue.is_empty() || ov.prologue.is_some() {
@@ -422,7 +427,7 @@ pub fn build_ref(spec: &SessionSpec, initiator: bool, ov: &EpOverrides) -> Resul
     } else {
         None
     };
-    let rs = if ov.supply_rs.unwrap_or_else(|| pat.role_needs_remote_static(initiator)) {
+    let rs = if ov.supply_rs.unwrap_or_else(|| pat.role_needs_remote_static(initiator) || (spec.pin_rs && pat.role_uses_static(!initiator))) {
         Some(ov.rs_value.clone().unwrap_or_else(|| spec.s_pub(!initiator)))
     } else {
         None
